@@ -18,6 +18,7 @@ import QuaiVerif.Driver.HeaderRules
 import QuaiVerif.Driver.Seal
 import QuaiVerif.Driver.Pool
 import QuaiVerif.Driver.Payout
+import QuaiVerif.Driver.Route
 /- qvdriver: `qvdriver <area>` reads protocol lines on stdin, answers one line per line. -/
 open QuaiVerif
 
@@ -38,6 +39,7 @@ def main (args : List String) : IO UInt32 := do
   | ["mem"] => ioLoop Mem.step' stdin stdout (); return 0
   | ["c11"] => ioLoop Crash.step stdin stdout (); return 0
   | ["c13chain"] => ioLoop Payout.step stdin stdout {}; return 0
+  | ["c04h"] => ioLoop Route.dstep stdin stdout Route.init; return 0
   | ["c19"] => ioLoop Pool.step stdin stdout {}; return 0
   | ["c08"] => ioLoop Seal.step stdin stdout (); return 0
   | ["c09"] => ioLoop HeaderRules.step stdin stdout HeaderRules.Acc.genesis; return 0
